@@ -6,6 +6,7 @@
 #include "common/oracle.hpp"
 #include "common/gen.hpp"
 #include <Spectra/contrib/LOBPCGSolver.h>
+#include <memory>
 
 using T = double;
 using namespace vo;
@@ -71,13 +72,27 @@ void vf_run_case(vf::Ctx& ctx, long idx)
     }
     Sp X0s = X0.sparseView();
     auto info = [&]() { return vf::J().kv("n", n).kv("block_size", k).kv("with_B", withB).kv("with_preconditioner", withP).kv("tol_div_n", (double) tol).kv("maxit", maxit_eff).kv("start", SKN[startkind]).kv("cond_B", (double) kB).kv("indefinite_A", indefinite); };
-    Spectra::LOBPCGSolver<T> solver(As, X0s);
-    if (withB) solver.setB(Bs);
+    // The solver is documented by its behaviour to work on its own copies of A, X, B and the preconditioner: what the caller does with its matrix objects after handing
+    // them over (they are temporaries that die at once; they are reassigned for the next problem) must not matter.  Three ownership modes.
+    const int own = (int) r.range(0, 2);
+    static const char* OWN[] = {"caller-keeps-its-matrices", "matrices-handed-over-as-temporaries", "caller-reassigns-its-matrices-before-compute"};
+    ctx.count(std::string("ownership/") + OWN[own]);
+    std::unique_ptr<Spectra::LOBPCGSolver<T>> holder(own == 1 ? new Spectra::LOBPCGSolver<T>(Sp(As), Sp(X0s)) : new Spectra::LOBPCGSolver<T>(As, X0s));
+    Spectra::LOBPCGSolver<T>& solver = *holder;
+    if (withB) { if (own == 1) solver.setB(Sp(Bs)); else solver.setB(Bs); }
     if (withP)
     {
         Sp P(n, n);
         for (int i = 0; i < n; i++) P.insert(i, i) = 1.0 / std::max(std::abs(A(i, i)), 0.1);   // positive (the indefinite case has diagonal entries of either sign)
-        solver.setPreconditioner(P);
+        if (own == 1) solver.setPreconditioner(Sp(P)); else solver.setPreconditioner(P);
+        if (own == 2) { P = Sp(n, n); P.insert(0, 0) = -7.0; }
+    }
+    if (own == 2)
+    {
+        // the caller's objects now hold the next problem (another size, other values)
+        As = Sp(n + 3, n + 3); As.insert(1, 1) = 7.0;
+        Bs = Sp(2, 2);
+        X0s = Sp(n + 3, 1); X0s.insert(0, 0) = 1.0;
     }
     std::string outcome = "ok";
     try { solver.compute(maxit_eff, tol); }
